@@ -56,8 +56,16 @@ fn query_for(k: &Key, id: u16) -> Vec<u8> {
 
 fn c06_case(leg: &mut Leg, r: &mut Rng, case_seed: u64) {
     let names = rn::gen_name_pool(r, 4, false);
+    let mut name = names[1 + r.usize(names.len() - 1)].clone();
+    if r.chance(1, 4) {
+        // a name that has twins under textual renderings (a dot or an unprintable octet inside a label)
+        let l = crate::refcodec::weakhash::twinnable_label(r);
+        if name.iter().map(|x| x.len() + 1).sum::<usize>() + l.len() + 2 <= 255 {
+            name.insert(0, l);
+        }
+    }
     let key = Key {
-        name: names[1 + r.usize(names.len() - 1)].clone(),
+        name,
         qtype: *r.pick(&[1u16, 28, 5, 15, 16, 6]),
         edns_do: r.bool(),
         cd: r.bool(),
@@ -124,6 +132,11 @@ fn c06_case(leg: &mut Leg, r: &mut Rng, case_seed: u64) {
     others.push((Key { name: on, ..key.clone() }, "other-name"));
     if !key.name.is_empty() {
         others.push((Key { name: key.name[1..].to_vec(), ..key.clone() }, "parent-name"));
+    }
+    for (twin, _how) in crate::refcodec::weakhash::text_twins(&key.name) {
+        if twin != key.name && twin.iter().map(|x| x.len() + 1).sum::<usize>() + 1 <= 255 {
+            others.push((Key { name: twin, ..key.clone() }, "text-twin-name"));
+        }
     }
 
     let replay = json!({"engine": "c06", "case_seed": case_seed});
